@@ -5,7 +5,7 @@ from vlib import log
 from uplc_checks import cj, write_cfg
 
 ITEMS = [{"kind": "fn", "name": "item1"}, {"kind": "fn", "name": "item2"}, {"kind": "fn", "name": "item3"}, {"kind": "fn", "name": "item4"},
-         {"kind": "validator", "name": "item5"}]
+         {"kind": "validator", "name": "item5"}, {"kind": "fn", "name": "item6"}, {"kind": "fn", "name": "item7"}, {"kind": "fn", "name": "item8"}]
 
 
 def c09(tier):
@@ -13,7 +13,7 @@ def c09(tier):
     rep = vlib.Reporter("C09")
     src = open(os.path.join(vlib.ROOT, "corpus", "c09_module.ak")).read()
     h = 3 if tier == "quick" else 4
-    cfg = write_cfg("CodeGenReuse", {"NItems": 5, "H": h}, ["HistoryIndependent", "CountersReset", "Emit"])
+    cfg = write_cfg("CodeGenReuse", {"NItems": 8, "H": h}, ["HistoryIndependent", "CountersReset", "Emit"])
     r = vlib.tlc("CodeGenReuse", cfg=cfg, workers=6, timeout=2400, xmx="8g", metaname="CodeGenReuse")
     if not r.ok:
         raise vlib.ToolError("CodeGenReuse failed (a violated invariant is a flaw of the reuse DESIGN): %s\n%s" % (r.error, r.out[-1200:]))
@@ -50,14 +50,31 @@ def c09(tier):
         outs.append(res[0]["fresh"])
     # project level: the same sources built repeatedly (fresh hash-map seeds), in other processes, with other thread counts
     vsrc = src
+    # several validator modules defining validators of the same name, and messages that differ by white space only
+    extra = {}
+    for mod, msg in (("alpha", "ab"), ("beta", "a b"), ("gamma", "a  b"), ("delta", "ab")):
+        extra["validators/%s.ak" % mod] = ("validator main(p: ByteArray) {\n  mint(_r: Data, _p: ByteArray, _tx: Data) {\n    expect p == \"%s\"\n    True\n  }\n\n  else(_) {\n    fail\n  }\n}\n" % msg)
     blueprints = []
     for run, env in enumerate([{}, {}, {"RAYON_NUM_THREADS": "1"}, {"RAYON_NUM_THREADS": "4"}, {"RAYON_NUM_THREADS": "16"}]):
-        cases = [{"id": i, "dir": os.path.join(vlib.WORK, "bp", "c09_%d_%d_%d" % (os.getpid(), run, i)), "src": vsrc, "ops": []} for i in range(3 if tier == "quick" else 8)]
+        cases = [{"id": i, "dir": os.path.join(vlib.WORK, "bp", "c09_%d_%d_%d" % (os.getpid(), run, i)), "src": vsrc, "ops": [], "extra_files": extra, "verbose": True}
+                 for i in range(3 if tier == "quick" else 8)]
         res = vlib.run_harness("blueprint_ops", stdin_lines=cases, env=env)
         for o in res:
             if o.get("build") != "ok":
                 raise vlib.ToolError("C09: project does not build: %s" % json.dumps(o.get("build"))[:500])
             blueprints.append(json.dumps(o["blueprint"], sort_keys=False))
+    # each validator built with the others must be the validator built alone (a generator shared across a build keeps nothing)
+    together = {v["title"]: v for v in json.loads(blueprints[0])["validators"]} if blueprints else {}
+    alone_cases = [{"id": i, "dir": os.path.join(vlib.WORK, "bp", "c09_%d_alone_%d" % (os.getpid(), i)), "src": "", "ops": [], "extra_files": {k: v}, "verbose": True}
+                   for i, (k, v) in enumerate(sorted(extra.items()))]
+    for (k, v), o in zip(sorted(extra.items()), vlib.run_harness("blueprint_ops", stdin_lines=alone_cases)):
+        if o.get("build") != "ok":
+            raise vlib.ToolError("C09: module %s does not build alone: %s" % (k, json.dumps(o.get("build"))[:500]))
+        for val in o["blueprint"]["validators"]:
+            t = together.get(val["title"])
+            if t is None or t.get("compiledCode") != val.get("compiledCode"):
+                rep.violation("alone-vs-together:" + val["title"], {"title": val["title"], "alone": val.get("hash"), "together": (t or {}).get("hash")},
+                              "validator %s compiled together with the other modules differs from the same validator compiled alone" % val["title"])
     if len(set(blueprints)) != 1:
         rep.violation("blueprint-nondeterminism", {"distinct": len(set(blueprints)), "sha": sorted(set(hashlib.sha256(b.encode()).hexdigest()[:12] for b in blueprints))},
                       "building the same sources %d times (in-process repeats, separate processes, 1/4/16 threads) produced %d different blueprints" % (len(blueprints), len(set(blueprints))))
